@@ -705,6 +705,10 @@ def sep_rule(ctx):
         ifs = [n for n in sir.walk(f.body) if n.get("k") == "if" and "need_stat_sep" in sir.expr_str(n["cond"])]
         ok = False
         d = "no branch on need_stat_sep"
+        if not ifs:
+            # `if was_pending` where the local holds the previous value of the flag
+            prevs = set(n["pat"]["name"] for n in sir.walk(f.body) if n.get("k") == "local" and n["pat"].get("k") == "p_ident" and n.get("init") is not None and "need_stat_sep" in sir.expr_str(n["init"]))
+            ifs = [n for n in sir.walk(f.body) if n.get("k") == "if" and n["cond"].get("k") == "path" and n["cond"]["segs"][-1] in prevs]
         if len(ifs) == 1:
             i = ifs[0]
             then_semi = any((sir.write_fmt_call(n) or (None, []))[1] == [("lit", ";")] for n in sir.walk(i["then"]))
@@ -714,12 +718,27 @@ def sep_rule(ctx):
             neg = i["cond"].get("k") == "unary"
             ok = then_semi and else_sets and not neg
             d = "if need_stat_sep {write ';': %s} else {need_stat_sep = true: %s}" % (then_semi, else_sets)
+        if len(ifs) == 1 and not ok:
+            # the same automaton with `mem::replace`: `let was = replace(&mut flag, true); if was { write ";" }`
+            i = ifs[0]
+            c = i["cond"]
+            if c.get("k") == "path" and len(c["segs"]) == 1:
+                decl = [n for n in sir.walk(f.body) if n.get("k") == "local" and n["pat"].get("name") == c["segs"][0] and n.get("init") is not None]
+                if decl and decl[0]["init"].get("k") == "call" and (sir.call_path(decl[0]["init"]) or "").endswith("mem::replace") and len(decl[0]["init"]["args"]) == 2 \
+                        and "need_stat_sep" in sir.expr_str(decl[0]["init"]["args"][0]) and decl[0]["init"]["args"][1].get("v") is True:
+                    then_semi = any((sir.write_fmt_call(n) or (None, []))[1] == [("lit", ";")] for n in sir.walk(i["then"]))
+                    ok = then_semi and i.get("else") is None
+                    d = "let was = replace(need_stat_sep, true); if was {write ';': %s}" % then_semi
+        if not ifs:
+            ok = None
+            d = "stat() does not branch on need_stat_sep in a form this rule reads"
         # the statement body runs after the separator logic
         nodes = list(sir.walk(f.body))
         call_f = [i for i, n in enumerate(nodes) if n.get("k") == "call" and sir.expr_str(n["f"]) == "f"]
         if_i = [i for i, n in enumerate(nodes) if ifs and n is ifs[0]]
-        ok = ok and call_f and if_i and if_i[0] < call_f[0]
-        obs.append(ob("C02.sep/stat", bool(ok), ctx.where(f), d))
+        if ok:
+            ok = bool(call_f and if_i and if_i[0] < call_f[0])
+        obs.append(ob("C02.sep/stat", ok if ok is None else bool(ok), ctx.where(f), d))
     # every statement-writing entry point passes stat(): expr_stmt calls self.stat; custom_stmt_str handles the flag itself
     es = [f for f in tc.fns if f.name == "expr_stmt" and f.base == "JsFunctionScopeWriter" and f.body]
     ok = len(es) == 1 and any(n.get("k") == "mcall" and n["m"] == "stat" for n in sir.walk(es[0].body))
